@@ -791,16 +791,25 @@ def fam_subjects(g, prefix, n_random, maxlen=10, exhaustive_len=0):
                                [["unsub", str(u)] for u in range(nusers)])
     subs = [["sub", ["ref", "a"], NOREACT], ["sub", ["map", "inc", ["ref", "a"]], NOREACT], ["sub", ["take", "1", ["ref", "a"]], NOREACT],
             ["sub", ["take", "2", ["ref", "a"]], NOREACT]]
+    # ONE Observable value (`subject.observable()` evaluated once, possibly behind an operator) shared by several
+    # subscribers: what `observable()` allocates must not be shared between them
+    shared = [["sub", ["ref", "h"], NOREACT], ["sub", ["ref", "hm"], NOREACT], ["sub", ["take", "1", ["ref", "h"]], NOREACT], ["sub", ["ref", "h"], NOREACT]]
+    defs = [["def", "h", ["ref", "a"]], ["def", "hm", ["map", "inc", ["ref", "a"]]]]
     for kind in kinds:
+        for first, second in ((0, 0), (0, 1), (1, 1), (1, 0), (2, 0)):
+            for leaver in ("0", "1"):
+                out.append(case("%s-%s-sh%d" % (prefix, kind, i), mk(kind, defs + [shared[first], ["hnext", "a", "1"], shared[second], ["unsub", leaver],
+                                                                               ["hnext", "a", "2"], ["hcomplete", "a"]]))); i += 1
         for j in range(n_random):
             calls = []
             users = 0
+            use_shared = g.r.random() < 0.3
             for _ in range(g.r.randint(2, maxlen)):
                 if users < 3 and g.r.random() < 0.3:
-                    calls.append(g.r.choice(subs)); users += 1
+                    calls.append(g.r.choice(shared if use_shared else subs)); users += 1
                 else:
                     calls.append(g.r.choice(alphabet(users)))
-            out.append(case("%s-%s-%d" % (prefix, kind, i), mk(kind, calls))); i += 1
+            out.append(case("%s-%s-%d" % (prefix, kind, i), mk(kind, (defs if use_shared else []) + calls))); i += 1
         if exhaustive_len:
             import itertools
             base = [subs[0], subs[2]] + [["hnext", "a", "1"], ["hnext", "a", "2"], ["hcomplete", "a"], ["herror", "a", "6"], ["unsub", "0"], ["unsub", "1"]]
